@@ -51,5 +51,6 @@ except Exception: pass
 json.dump(meta,open(dst+"/meta.json","w"),indent=1)
 print(json.dumps(meta["confirmed"]), "caught_by:", caught)
 PY
+python3 /verif/tools/seed_needs.py $DST/ >/dev/null
 rm -f $WT.res $WT.d0 $WT.d1 $WT.b $WT.s $WT.c
 git -C /repo worktree remove --force $WT; git -C /repo worktree prune
